@@ -55,6 +55,19 @@ pub mod walkdir {
         pub fn follow_links(self, yes: bool) -> (r: WalkDir) ensures r.root() == self.root(), r.follow() == yes, r.xdev() == self.xdev() { unimplemented!() }
         #[verifier::external_body]
         pub fn follow_root_links(self, yes: bool) -> (r: WalkDir) ensures r.root() == self.root(), r.follow() == self.follow(), r.xdev() == self.xdev() { unimplemented!() }
+        /// the other builder settings that change *what* is delivered or whether a directory comes before its contents: any of them away from
+        /// walkdir's default makes the walk something else than `walk_of(root, follow)` (xdev stands for "not the plain walk")
+        #[verifier::external_body]
+        pub fn contents_first(self, yes: bool) -> (r: WalkDir) ensures r.root() == self.root(), r.follow() == self.follow(), r.xdev() == (self.xdev() || yes) { unimplemented!() }
+        #[verifier::external_body]
+        pub fn min_depth(self, d: usize) -> (r: WalkDir) ensures r.root() == self.root(), r.follow() == self.follow(), r.xdev() == (self.xdev() || d > 0) { unimplemented!() }
+        #[verifier::external_body]
+        pub fn max_depth(self, d: usize) -> (r: WalkDir) ensures r.root() == self.root(), r.follow() == self.follow(), r.xdev() == (self.xdev() || d < usize::MAX) { unimplemented!() }
+        /// order among siblings: no contract depends on it
+        #[verifier::external_body]
+        pub fn sort_by_file_name(self) -> (r: WalkDir) ensures r.root() == self.root(), r.follow() == self.follow(), r.xdev() == self.xdev() { unimplemented!() }
+        #[verifier::external_body]
+        pub fn max_open(self, n: usize) -> (r: WalkDir) ensures r.root() == self.root(), r.follow() == self.follow(), r.xdev() == self.xdev() { unimplemented!() }
         /// with it the walk does not descend into a directory on another filesystem (the directory itself is still delivered)
         #[verifier::external_body]
         pub fn same_file_system(self, yes: bool) -> (r: WalkDir) ensures r.root() == self.root(), r.follow() == self.follow(), r.xdev() == yes { unimplemented!() }
